@@ -107,7 +107,7 @@ def readString (c : Cfg) : P Bytes := do
 def skipString (c : Cfg) : P Unit := do
   let l ← readInt32 c
   if l < 0 then P.fail .invalidSize else
-  seek l
+  skipBytes c l
 
 /-! ## fileheader.c -/
 
